@@ -24,5 +24,8 @@ for c in $CHECKS; do
   (cd /verif && VERIF_EVID=/tmp/seedcheck-evid VERIF_REPO=$WT ./check $c quick 2>&1 | tail -4)
 done
 # regenerate the facts table from /repo itself (a VERIF_REPO run leaves the mutated tree's table behind)
-(cd /verif/harness && go build -tags verif -o /tmp/seedcheck-facts ./cmd/facts && /tmp/seedcheck-facts /repo > /verif/lean/ShootVerif/Gen/Facts.lean; rm -f /tmp/seedcheck-facts)
+# (under the Lean project's lock: another check may be building against the table right now)
+F=$(mktemp /tmp/seedcheck-facts-XXXXXX)
+(cd /verif/harness && go build -tags verif -o $F ./cmd/facts) && flock /verif/lean/.lake/verif.lock sh -c "$F /repo > /verif/lean/ShootVerif/Gen/Facts.lean.tmp && mv /verif/lean/ShootVerif/Gen/Facts.lean.tmp /verif/lean/ShootVerif/Gen/Facts.lean"
+rm -f $F
 (cd /verif && python3 -c "import sys; sys.path.insert(0, 'tools'); from vlib import enumgen; enumgen.regen_enum_facts()" >/dev/null 2>&1)
